@@ -10,7 +10,17 @@
 //! `slice` through the shared reference while the share count is 1, the situation where a
 //! non-atomic "sole owner" shortcut in the increment loses a count.
 //!
-//! `miriprog list` prints `index<TAB>quick|thorough<TAB>description`, `miriprog <i>` runs one.
+//! The "co-owner" programs (`co`) cover EVERY `HipByt` operation that can act on a buffer whose
+//! co-owner lives/lived in another thread: T2 reads all bytes through its clone and drops it
+//! (no other synchronisation), T1 just calls the operation and checks the content it must see.
+//! The operations gated by a uniqueness test only take their in-place path when the other thread
+//! has finished first, hence both spawn orders.
+//!
+//! `miriprog list` prints
+//! `index<TAB>quick|thorough<TAB>description<TAB>exercised Gen/Protocol functions (comma separated)<TAB>sensitive|-`
+//! (`sensitive` = gated by a uniqueness test / count read: run with AND without debug
+//! assertions, hipstr's `debug_assert!(is_unique())` re-checks execute an Acquire fence that can
+//! mask a missing synchronisation); `miriprog <i>` runs one program.
 
 use hipstr::HipByt;
 use std::thread;
@@ -177,11 +187,170 @@ fn byref_slice() {
     }
 }
 
+// ---------------------------------------------------------------------------------------------
+// co-owner programs: T2 reads all bytes and drops its clone || T1 calls one operation
+// ---------------------------------------------------------------------------------------------
+
+const CAP: usize = 256;
+
+/// 64 bytes in a 256-byte vector: spare capacity, so that the in-place paths of `push_slice`,
+/// `spare_capacity_mut`, `shrink_to*` have something to do.
+fn base_spare() -> H {
+    let mut v = Vec::with_capacity(CAP);
+    v.extend_from_slice(&[b'a'; N]);
+    let h = H::from(v);
+    assert!(h.is_allocated());
+    assert!(h.capacity() >= CAP);
+    h
+}
+
+/// Rounds of a co-owner program (a fresh buffer each round).
+const CO_ROUNDS: usize = 3;
+
+/// `op_first`: spawn the thread running `op` first (Miri's scheduler tends to run the
+/// first-spawned thread first; the uniqueness-gated in-place paths need the reader to be done).
+fn co(op: fn(H), spare: bool, op_first: bool) {
+    for _ in 0..CO_ROUNDS {
+        let h1 = if spare { base_spare() } else { base() };
+        let h2 = h1.clone();
+        let (t1, t2);
+        if op_first {
+            t1 = thread::spawn(move || op(h1));
+            t2 = thread::spawn(move || t_read_drop(h2));
+        } else {
+            t2 = thread::spawn(move || t_read_drop(h2));
+            t1 = thread::spawn(move || op(h1));
+        }
+        t1.join().unwrap();
+        t2.join().unwrap();
+    }
+}
+
+fn t_mutate(mut h: H) {
+    {
+        let mut r = h.mutate();
+        r[0] = b'M';
+        r.push(b'!');
+    }
+    assert_eq!(h.len(), N + 1);
+    let s = h.as_slice();
+    assert_eq!(s[0], b'M');
+    assert!(s[1..N].iter().all(|&b| b == b'a'));
+    assert_eq!(s[N], b'!');
+}
+
+fn t_spare(mut h: H) {
+    let len = h.len();
+    let spare = h.spare_capacity_mut();
+    if spare.is_empty() {
+        // still shared (or no room): nothing may have changed
+        all(&h, N, b'a', b'a');
+    } else {
+        spare[0].write(b'S');
+        // SAFETY: byte `len` has just been initialised; a non-empty spare slice is only handed
+        // out to the sole owner
+        unsafe { h.set_len(len + 1) };
+        assert_eq!(h.len(), N + 1);
+        assert!(h.as_slice()[..N].iter().all(|&b| b == b'a'));
+        assert_eq!(h.as_slice()[N], b'S');
+    }
+}
+
+fn t_shrink_fit(mut h: H) {
+    h.shrink_to_fit();
+    all(&h, N, b'a', b'a');
+    assert!(h.capacity() >= N);
+    // the (possibly new) buffer must be writable by its sole owner afterwards
+    h.to_mut_slice()[0] = b'F';
+    all(&h, N, b'F', b'a');
+}
+
+fn t_shrink_to(mut h: H) {
+    h.shrink_to(100);
+    all(&h, N, b'a', b'a');
+    assert!(h.capacity() >= 100);
+    h.push_slice(b"aa");
+    all(&h, N + 2, b'a', b'a');
+}
+
+fn t_truncate(mut h: H) {
+    h.truncate(40);
+    all(&h, 40, b'a', b'a');
+    assert!(h.is_allocated());
+    h.push_slice(b"aaaa");
+    all(&h, 44, b'a', b'a');
+}
+
+fn t_truncate_inline(mut h: H) {
+    h.truncate(10);
+    all(&h, 10, b'a', b'a');
+    assert!(h.is_inline());
+}
+
+fn t_clone(h: H) {
+    let c = h.clone();
+    assert_eq!(read(&c), N * b'a' as usize);
+    drop(h);
+    all(&c, N, b'a', b'a');
+}
+
+fn t_slice(h: H) {
+    let s = h.slice(8..48);
+    assert!(s.is_allocated());
+    drop(h);
+    all(&s, 40, b'a', b'a');
+}
+
+fn t_upper_spare(mut h: H) {
+    h.make_ascii_uppercase();
+    all(&h, N, b'A', b'A');
+}
+
+/// By reference, then an owner operation after the scope: the borrowers clone / slice / read
+/// through `&h` and drop what they made inside their threads.
+fn byref_then(op: fn(H), spare: bool) {
+    for _ in 0..ROUNDS {
+        let h = if spare { base_spare() } else { base() };
+        thread::scope(|s| {
+            s.spawn(|| {
+                let c = h.clone();
+                assert_eq!(read(&c), N * b'a' as usize);
+            });
+            s.spawn(|| {
+                let c = h.slice(8..48);
+                assert_eq!(read(&c), 40 * b'a' as usize);
+            });
+            s.spawn(|| assert_eq!(read(&h), N * b'a' as usize));
+        });
+        op(h);
+    }
+}
+
 struct Prog {
     quick: bool,
+    /// gated by a uniqueness test / a read of the share count
+    sensitive: bool,
     desc: &'static str,
+    /// the functions of Gen/Protocol (names as printed by `conc_driver protocol`) it exercises
+    fns: &'static [&'static str],
     run: fn(),
 }
+
+// names of Gen/Protocol
+const MAKE_UNIQUE: &str = "HipByt::make_unique [Tag::Allocated]";
+const TAKE_VEC: &str = "HipByt::take_vec";
+const DROP: &str = "HipByt as Drop::drop";
+const CLONE: &str = "Allocated::explicit_clone";
+const SLICE: &str = "Allocated::slice_unchecked";
+const XDROP: &str = "Allocated::explicit_drop";
+const INTO_VEC: &str = "Allocated::try_into_vec";
+const AS_MUT: &str = "Allocated::as_mut_slice";
+const SPARE: &str = "Allocated::spare_capacity_mut";
+const PUSH_UNCHECKED: &str = "Allocated::push_slice_unchecked";
+const A_SHRINK: &str = "Allocated::shrink_to";
+const PUSH: &str = "HipByt::push_slice";
+const TRUNCATE: &str = "HipByt::truncate";
+const H_SHRINK: &str = "HipByt::shrink_to";
 
 fn par2(a: fn(H), b: fn(H)) {
     let h1 = base();
@@ -205,15 +374,18 @@ fn par3(a: fn(H), b: fn(H), c: fn(H)) {
 }
 
 const PROGS: &[Prog] = &[
-    Prog { quick: true, desc: "T1: to_mut_slice()[0]=x || T2: drop", run: || par2(t_to_mut, t_drop) },
-    Prog { quick: true, desc: "T1: to_mut_slice()[0]=x || T2: into_vec (write the Vec if Ok)", run: || par2(t_to_mut, t_into_vec) },
-    Prog { quick: true, desc: "T1: make_ascii_uppercase || T2: push_slice", run: || par2(t_upper, t_push) },
-    Prog { quick: true, desc: "T1: as_mut_slice write-if-Some || T2: read all bytes, drop", run: || par2(t_as_mut, t_read_drop) },
-    Prog { quick: false, desc: "T1: to_mut_slice()[0]=x || T2: as_mut_slice write-if-Some", run: || par2(t_to_mut, t_as_mut) },
-    Prog { quick: false, desc: "T1: read all bytes, drop || T2: into_vec (write the Vec if Ok)", run: || par2(t_read_drop, t_into_vec) },
+    // 0..13: two/three owning threads
+    Prog { quick: true, sensitive: true, desc: "T1: to_mut_slice()[0]=x || T2: drop", fns: &[MAKE_UNIQUE, XDROP, DROP, CLONE], run: || par2(t_to_mut, t_drop) },
+    Prog { quick: true, sensitive: true, desc: "T1: to_mut_slice()[0]=x || T2: into_vec (write the Vec if Ok)", fns: &[MAKE_UNIQUE, INTO_VEC], run: || par2(t_to_mut, t_into_vec) },
+    Prog { quick: true, sensitive: true, desc: "T1: make_ascii_uppercase || T2: push_slice", fns: &[MAKE_UNIQUE, PUSH], run: || par2(t_upper, t_push) },
+    Prog { quick: true, sensitive: true, desc: "T1: as_mut_slice write-if-Some || T2: read all bytes, drop", fns: &[AS_MUT, DROP, XDROP], run: || par2(t_as_mut, t_read_drop) },
+    Prog { quick: false, sensitive: true, desc: "T1: to_mut_slice()[0]=x || T2: as_mut_slice write-if-Some", fns: &[MAKE_UNIQUE, AS_MUT], run: || par2(t_to_mut, t_as_mut) },
+    Prog { quick: false, sensitive: true, desc: "T1: read all bytes, drop || T2: into_vec (write the Vec if Ok)", fns: &[INTO_VEC, DROP, XDROP], run: || par2(t_read_drop, t_into_vec) },
     Prog {
         quick: false,
+        sensitive: true,
         desc: "handles related by slice: T1: slice(8..48).to_mut_slice()[0]=x || T2: parent push_slice",
+        fns: &[SLICE, MAKE_UNIQUE, PUSH],
         run: || {
             let h = base();
             let s = h.slice(8..48);
@@ -228,12 +400,14 @@ const PROGS: &[Prog] = &[
             t2.join().unwrap();
         },
     },
-    Prog { quick: false, desc: "T1: clone, drop original, read the clone || T2: drop", run: || par2(t_clone_read, t_drop) },
-    Prog { quick: false, desc: "T1: to_mut_slice()[0]=x || T2: drop || T3: read all bytes, drop", run: || par3(t_to_mut, t_drop, t_read_drop) },
-    Prog { quick: false, desc: "T1: read, drop || T2: read, drop || T3: into_vec", run: || par3(t_read_drop, t_read_drop, t_into_vec) },
+    Prog { quick: false, sensitive: false, desc: "T1: clone, drop original, read the clone || T2: drop", fns: &[CLONE, DROP, XDROP], run: || par2(t_clone_read, t_drop) },
+    Prog { quick: false, sensitive: true, desc: "T1: to_mut_slice()[0]=x || T2: drop || T3: read all bytes, drop", fns: &[MAKE_UNIQUE, DROP, XDROP], run: || par3(t_to_mut, t_drop, t_read_drop) },
+    Prog { quick: false, sensitive: true, desc: "T1: read, drop || T2: read, drop || T3: into_vec", fns: &[INTO_VEC, DROP, XDROP], run: || par3(t_read_drop, t_read_drop, t_into_vec) },
     Prog {
         quick: false,
+        sensitive: true,
         desc: "T1: slice(4..60) read, drop || T2: make_ascii_uppercase",
+        fns: &[SLICE, MAKE_UNIQUE, DROP, XDROP],
         run: || {
             let h = base();
             let s = h.slice(4..60);
@@ -246,20 +420,56 @@ const PROGS: &[Prog] = &[
             t2.join().unwrap();
         },
     },
-    Prog { quick: false, desc: "T1: push_slice || T2: push_slice", run: || par2(t_push, t_push) },
-    Prog { quick: false, desc: "T1: as_mut_slice write-if-Some || T2: drop || T3: make_ascii_uppercase", run: || par3(t_as_mut, t_drop, t_upper) },
-    Prog { quick: true, desc: "T1: read all bytes, drop || T2: as_mut_slice write-if-Some", run: || par2(t_read_drop, t_as_mut) },
-    Prog { quick: true, desc: "by reference: scope { T1: (&h).clone() || T2: (&h).clone() }; drop clones one by one reading h; h.into_vec() must be Ok", run: byref_clone_into_vec },
-    Prog { quick: true, desc: "by reference: scope { T1,T2: (&h).clone(), read, drop || main: read h }; h.as_mut_slice() must be Some", run: byref_clone_drop_in_threads },
-    Prog { quick: false, desc: "by reference: scope { T1: (&h).clone() || T2: (&h).clone() }; drop one; h.to_mut_slice()[0]=x must not touch the other clone", run: byref_clone_to_mut },
-    Prog { quick: false, desc: "by reference: scope { T1: (&h).slice(8..48) || T2: (&h).slice(0..32) }; mutate the parent; slices keep their content", run: byref_slice },
+    Prog { quick: false, sensitive: true, desc: "T1: push_slice || T2: push_slice", fns: &[PUSH], run: || par2(t_push, t_push) },
+    Prog { quick: false, sensitive: true, desc: "T1: as_mut_slice write-if-Some || T2: drop || T3: make_ascii_uppercase", fns: &[AS_MUT, MAKE_UNIQUE, DROP, XDROP], run: || par3(t_as_mut, t_drop, t_upper) },
+    Prog { quick: true, sensitive: true, desc: "T1: read all bytes, drop || T2: as_mut_slice write-if-Some", fns: &[AS_MUT, DROP, XDROP], run: || par2(t_read_drop, t_as_mut) },
+    // 14..17: by reference
+    Prog { quick: true, sensitive: true, desc: "by reference: scope { T1: (&h).clone() || T2: (&h).clone() }; drop clones one by one reading h; h.into_vec() must be Ok", fns: &[CLONE, INTO_VEC, DROP, XDROP], run: byref_clone_into_vec },
+    Prog { quick: true, sensitive: true, desc: "by reference: scope { T1,T2: (&h).clone(), read, drop || main: read h }; h.as_mut_slice() must be Some", fns: &[CLONE, AS_MUT, DROP, XDROP], run: byref_clone_drop_in_threads },
+    Prog { quick: false, sensitive: true, desc: "by reference: scope { T1: (&h).clone() || T2: (&h).clone() }; drop one; h.to_mut_slice()[0]=x must not touch the other clone", fns: &[CLONE, MAKE_UNIQUE, XDROP], run: byref_clone_to_mut },
+    Prog { quick: false, sensitive: true, desc: "by reference: scope { T1: (&h).slice(8..48) || T2: (&h).slice(0..32) }; mutate the parent; slices keep their content", fns: &[SLICE, MAKE_UNIQUE, XDROP], run: byref_slice },
+    // 18..: co-owner programs, reader spawned FIRST: "T2: read all bytes, drop its clone || T1: <op>"
+    Prog { quick: false, sensitive: true, desc: "co-owner: T2: read all, drop || T1: to_mut_slice()[0]=x", fns: &[MAKE_UNIQUE, DROP, XDROP, CLONE], run: || co(t_to_mut, false, false) },
+    Prog { quick: false, sensitive: true, desc: "co-owner: T2: read all, drop || T1: make_ascii_uppercase (spare capacity)", fns: &[MAKE_UNIQUE, DROP, XDROP], run: || co(t_upper_spare, true, false) },
+    Prog { quick: true, sensitive: true, desc: "co-owner: T2: read all, drop || T1: into_vec (write the Vec if Ok)", fns: &[INTO_VEC, DROP, XDROP], run: || co(t_into_vec, false, false) },
+    Prog { quick: true, sensitive: true, desc: "co-owner: T2: read all, drop || T1: mutate() (RefMut: write, push, drop it)", fns: &[TAKE_VEC, INTO_VEC, DROP, XDROP], run: || co(t_mutate, false, false) },
+    Prog { quick: true, sensitive: true, desc: "co-owner: T2: read all, drop || T1: push_slice (spare capacity: in place when unique)", fns: &[PUSH, PUSH_UNCHECKED, DROP, XDROP], run: || co(t_push, true, false) },
+    Prog { quick: true, sensitive: true, desc: "co-owner: T2: read all, drop || T1: spare_capacity_mut, write one byte, set_len (spare capacity)", fns: &[SPARE, DROP, XDROP], run: || co(t_spare, true, false) },
+    Prog { quick: true, sensitive: true, desc: "co-owner: T2: read all, drop || T1: shrink_to_fit, then write (spare capacity)", fns: &[H_SHRINK, A_SHRINK, MAKE_UNIQUE, XDROP, DROP], run: || co(t_shrink_fit, true, false) },
+    Prog { quick: true, sensitive: true, desc: "co-owner: T2: read all, drop || T1: shrink_to(100), then push_slice (spare capacity)", fns: &[H_SHRINK, A_SHRINK, PUSH, XDROP, DROP], run: || co(t_shrink_to, true, false) },
+    Prog { quick: false, sensitive: false, desc: "co-owner: T2: read all, drop || T1: truncate(40), then push_slice", fns: &[TRUNCATE, PUSH, DROP, XDROP], run: || co(t_truncate, false, false) },
+    Prog { quick: false, sensitive: false, desc: "co-owner: T2: read all, drop || T1: truncate(10) (becomes inline)", fns: &[TRUNCATE, DROP, XDROP], run: || co(t_truncate_inline, false, false) },
+    Prog { quick: false, sensitive: true, desc: "co-owner: T2: read all, drop || T1: as_mut_slice write-if-Some", fns: &[AS_MUT, DROP, XDROP], run: || co(t_as_mut, false, false) },
+    Prog { quick: false, sensitive: false, desc: "co-owner: T2: read all, drop || T1: clone, read, drop original", fns: &[CLONE, DROP, XDROP], run: || co(t_clone, false, false) },
+    Prog { quick: false, sensitive: false, desc: "co-owner: T2: read all, drop || T1: slice(8..48), drop original, read the slice", fns: &[SLICE, DROP, XDROP], run: || co(t_slice, false, false) },
+    Prog { quick: false, sensitive: false, desc: "co-owner: T2: read all, drop || T1: drop", fns: &[DROP, XDROP], run: || co(t_drop, false, false) },
+    // the uniqueness-gated ones again with the operation thread spawned FIRST
+    Prog { quick: false, sensitive: true, desc: "co-owner, op spawned first: T1: to_mut_slice()[0]=x || T2: read all, drop", fns: &[MAKE_UNIQUE, DROP, XDROP], run: || co(t_to_mut, false, true) },
+    Prog { quick: false, sensitive: true, desc: "co-owner, op spawned first: T1: into_vec || T2: read all, drop", fns: &[INTO_VEC, DROP, XDROP], run: || co(t_into_vec, false, true) },
+    Prog { quick: false, sensitive: true, desc: "co-owner, op spawned first: T1: mutate() || T2: read all, drop", fns: &[TAKE_VEC, INTO_VEC, DROP, XDROP], run: || co(t_mutate, false, true) },
+    Prog { quick: false, sensitive: true, desc: "co-owner, op spawned first: T1: push_slice (spare capacity) || T2: read all, drop", fns: &[PUSH, PUSH_UNCHECKED, DROP, XDROP], run: || co(t_push, true, true) },
+    Prog { quick: false, sensitive: true, desc: "co-owner, op spawned first: T1: spare_capacity_mut + set_len (spare capacity) || T2: read all, drop", fns: &[SPARE, DROP, XDROP], run: || co(t_spare, true, true) },
+    Prog { quick: false, sensitive: true, desc: "co-owner, op spawned first: T1: shrink_to_fit (spare capacity) || T2: read all, drop", fns: &[H_SHRINK, A_SHRINK, MAKE_UNIQUE, XDROP, DROP], run: || co(t_shrink_fit, true, true) },
+    Prog { quick: false, sensitive: true, desc: "co-owner, op spawned first: T1: shrink_to(100) (spare capacity) || T2: read all, drop", fns: &[H_SHRINK, A_SHRINK, PUSH, XDROP, DROP], run: || co(t_shrink_to, true, true) },
+    Prog { quick: false, sensitive: true, desc: "co-owner, op spawned first: T1: as_mut_slice write-if-Some || T2: read all, drop", fns: &[AS_MUT, DROP, XDROP], run: || co(t_as_mut, false, true) },
+    // by reference, then an owner operation
+    Prog { quick: false, sensitive: true, desc: "by reference: scope { (&h).clone() read || (&h).slice(8..48) read || read h }; h.shrink_to_fit(), write (spare capacity)", fns: &[CLONE, SLICE, H_SHRINK, A_SHRINK, MAKE_UNIQUE, DROP, XDROP], run: || byref_then(t_shrink_fit, true) },
+    Prog { quick: false, sensitive: true, desc: "by reference: scope { (&h).clone() read || (&h).slice(8..48) read || read h }; h.push_slice (spare capacity)", fns: &[CLONE, SLICE, PUSH, PUSH_UNCHECKED, DROP, XDROP], run: || byref_then(t_push, true) },
+    Prog { quick: false, sensitive: true, desc: "by reference: scope { (&h).clone() read || (&h).slice(8..48) read || read h }; h.into_vec()", fns: &[CLONE, SLICE, INTO_VEC, DROP, XDROP], run: || byref_then(t_into_vec, false) },
+    Prog { quick: false, sensitive: true, desc: "by reference: scope { (&h).clone() read || (&h).slice(8..48) read || read h }; h.mutate()", fns: &[CLONE, SLICE, TAKE_VEC, INTO_VEC, DROP, XDROP], run: || byref_then(t_mutate, false) },
 ];
 
 fn main() {
     let arg = std::env::args().nth(1).unwrap_or_else(|| "list".to_string());
     if arg == "list" {
         for (i, p) in PROGS.iter().enumerate() {
-            println!("{i}\t{}\t{}", if p.quick { "quick" } else { "thorough" }, p.desc);
+            println!(
+                "{i}\t{}\t{}\t{}\t{}",
+                if p.quick { "quick" } else { "thorough" },
+                p.desc,
+                p.fns.join(","),
+                if p.sensitive { "sensitive" } else { "-" }
+            );
         }
         return;
     }
